@@ -451,12 +451,18 @@ func (w *Workspace) compile() error {
 }
 
 func (w *Workspace) attribute(out []byte, tool string) error {
-	for _, line := range strings.Split(string(out), "\n") {
-		line = strings.TrimSpace(line)
+	var last *Diag
+	for _, raw := range strings.Split(string(out), "\n") {
+		line := strings.TrimSpace(raw)
 		if line == "" || strings.HasPrefix(line, "#") {
 			continue
 		}
 		m := diagRe.FindStringSubmatch(line)
+		if m == nil && strings.HasPrefix(raw, "\t") && last != nil {
+			// the compiler continues a diagnostic on indented lines
+			last.Msg += " " + line
+			continue
+		}
 		if m == nil {
 			if strings.Contains(line, "too many errors") {
 				continue
@@ -479,9 +485,11 @@ func (w *Workspace) attribute(out []byte, tool string) error {
 			// a compile error inside our own glue is usually a consequence of an emitted API problem,
 			// keep it but mark it
 			u.Diags = append(u.Diags, Diag{File: file, Line: ln, Msg: m[4], Decl: "glue", Tool: tool})
+			last = &u.Diags[len(u.Diags)-1]
 			continue
 		}
 		u.Diags = append(u.Diags, Diag{File: file, Line: ln, Msg: m[4], Decl: declAt(filepath.Join(w.modDir(), file), ln), Tool: tool})
+		last = &u.Diags[len(u.Diags)-1]
 	}
 	return nil
 }
